@@ -363,6 +363,6 @@ Theorem radix_roundtrip_directive o s f n t :
   mem (f_char f) l_dxXobB = true ->
   format_value o (VInt n) (FStr s) = Some (OText t) -> int_new t (radix_of (f_char f)) = Some n.
 Proof.
-  intros Hp Hpf Hn Hc H. rewrite (format_value_scalar o (VInt n) s f eq_refl eq_refl Hp) in H.
+  intros Hp Hpf Hn Hc H. rewrite (format_value_scalar o (VInt n) s f eq_refl Hp) in H.
   injection H as H. now apply (radix_roundtrip o f n t).
 Qed.
